@@ -871,6 +871,11 @@ func genOddNames(r *rng) *Model {
 		a, b = "Repo", "Role" // upper case, prefixes of library-internal markers such as "R#"
 	}
 	ab := a + sep + b
+	if r.chance(15) {
+		// a user type whose name carries the library's internal marker in the
+		// middle or at its end (no type "HR" / "X" exists, so no label is ambiguous)
+		ab = []string{"HR#staff", "XR#", "a#R#b"}[r.intn(3)]
+	}
 	m := &Model{Schema: "1.1"}
 	for _, n := range []string{a, b, ab} {
 		m.Types = append(m.Types, &Type{Name: n})
@@ -1117,7 +1122,26 @@ func injectInterning(r *rng, m *Model) bool {
 	return true
 }
 
-func injectAliasing(r *rng, m *Model) bool {
+func injectAliasing(r *rng, m *Model) bool { return injectAliasingOpt(r, m, false) }
+
+func containsThis(e *Expr) bool {
+	if e == nil {
+		return false
+	}
+	if e.Kind == KThis {
+		return true
+	}
+	for _, c := range e.Children {
+		if containsThis(c) {
+			return true
+		}
+	}
+	return false
+}
+
+// injectAliasingOpt with dslOnly keeps the model expressible in the DSL (a
+// duplicated operand may not carry a second direct assignment).
+func injectAliasingOpt(r *rng, m *Model, dslOnly bool) bool {
 	done := false
 	dups := 0
 	for _, t := range m.Types {
@@ -1155,7 +1179,7 @@ func injectAliasing(r *rng, m *Model) bool {
 					i := 1 + r.intn(len(e.Children)-1)
 					// (small subtrees only: duplicating the rest of a deep chain
 					// at several levels doubles the model each time)
-					if e.Children[i-1].Kind != KThis && exprSize(e.Children[i-1]) <= 6 {
+					if e.Children[i-1].Kind != KThis && exprSize(e.Children[i-1]) <= 6 && !(dslOnly && containsThis(e.Children[i-1])) {
 						dups++
 						e.Children[i] = e.Children[i-1].clone()
 						e.Children[i].Dup = true
